@@ -347,6 +347,8 @@ pub fn gen_recorder(rng: &mut Rng, cfg: &GenCfg) -> RecorderSpec {
         special_rate: *rng.pick(&[0u8, 3, 8]),
         force_gecko: false,
         raw_len_zero: false,
+        sticky: *rng.pick(&[0u8, 0, 2, 5]),
+        blank: *rng.pick(&[0u8, 0, 0, 6, 20]),
     }
 }
 
